@@ -29,7 +29,7 @@ pub fn meta() -> PropMeta {
         id: "C15",
         level: "exploration",
         nontrivial_floor: 0.5,
-        rule: "a real client or listener is brought to one of 9 states (opened; session begun; receiving link attached with credit; both links attached; first frame of a multi-frame delivery received; a send awaiting its outcome; close / end / detach sent and unanswered) by a well-behaved scripted peer, with a pending recv and pending send outstanding. The peer then sends one generated attack: raw bytes; a frame with generated size field (0..12, actual-k..actual+k, max-frame-size+1, 2^31-1, 2^32-1), doff (0..255), type byte, channel (mapped / unmapped / 65535) and body (empty, random, valid performative, truncated performative, unknown descriptor, nesting 1..4000 deep of list32 / described / array / map, declared-length bombs); a valid frame for the state with 1..4 byte mutations (set, bit flip, truncate, insert; size field fixed up or not); or one of 30 catalogue violations with edge-value parameters (transfers beyond credit and beyond the session window, dispositions over huge/unknown ranges in both roles, flow/transfer/detach for unattached handles, duplicate attach by name and by handle, frames on unmapped channels, begin again, begin naming an unknown remote channel, end on an unmapped channel, second open, transfer without/with jumping/with mismatching delivery-id, absurd flow values, aborted and garbage payloads, SASL frames mid-connection, oversized frames, frames after close). Afterwards the peer is cooperative (answers begin/attach/detach/end/close, settles, serves a probe link) when the framing is still intact, and goes away (EOF) when the attack left a frame unfinished. Oracle: no panic anywhere in the process; the case finishes under the virtual-time watchdog and the task-poll budget (a busy loop is reported exactly); peak live allocation and the largest single allocation while the attack is processed stay within 512 KiB + 64 x attack length + 4 x max-frame-size, and thread CPU time within 5 s per attack; every pending and follow-up operation of the application completes; if the endpoint wrote no close, the connection is still usable (new session, new link, one message received); if it wrote close/end/detach with an error, an operation of the application on that connection/session/link reports an error; a pending recv/send does not stay pending once its link, session or connection was shut down; after teardown no task is alive; an unrelated client<->listener connection in the same process still transfers a message. Non-trivial: the attack reached the endpoint in the generated state (setup completed) — distinct by hash of (role, stage, attack).",
+        rule: "a real client or listener is brought to one of 9 states (opened; session begun; receiving link attached with credit; both links attached; first frame of a multi-frame delivery received; a send awaiting its outcome; close / end / detach sent and unanswered) by a well-behaved scripted peer, with a pending recv and pending send outstanding. The peer then sends one generated attack: raw bytes; a frame with generated size field (0..12, actual-k..actual+k, max-frame-size+1, 2^31-1, 2^32-1), doff (0..255), type byte, channel (mapped / unmapped / 65535) and body (empty, random, valid performative, truncated performative, unknown descriptor, nesting 1..4000 deep of list32 / described / array / map, declared-length bombs); a valid frame for the state with 1..4 byte mutations (set, bit flip, truncate, insert; size field fixed up or not); or one of 32 catalogue violations with edge-value parameters (transfers beyond credit and beyond the session window, dispositions over huge/unknown ranges in both roles, flow/transfer/detach for unattached handles, duplicate attach by name and by handle, frames on unmapped channels, begin again, begin naming an unknown remote channel, end on an unmapped channel, second open, transfer without/with jumping/with mismatching delivery-id, absurd flow values, aborted and garbage payloads, SASL frames mid-connection, oversized frames, frames after close). Afterwards the peer is cooperative (answers begin/attach/detach/end/close, settles, serves a probe link) when the framing is still intact, and goes away (EOF) when the attack left a frame unfinished. Oracle: no panic anywhere in the process; the case finishes under the virtual-time watchdog and the task-poll budget (a busy loop is reported exactly); peak live allocation and the largest single allocation while the attack is processed stay within 512 KiB + 64 x attack length + 4 x max-frame-size, and thread CPU time within 5 s per attack; every pending and follow-up operation of the application completes; if the endpoint wrote no close, the connection is still usable (new session, new link, one message received); if it wrote close/end/detach with an error, an operation of the application on that connection/session/link reports an error; a pending recv/send does not stay pending once its link, session or connection was shut down; after teardown no task is alive; an unrelated client<->listener connection in the same process still transfers a message. Non-trivial: the attack reached the endpoint in the generated state (setup completed) — distinct by hash of (role, stage, attack).",
         assumptions: &[
             "which level (link, session, connection) the endpoint shuts down for a given violation is not judged, only that the reaction is one of: ignore and stay usable, or shut down with an error visible to the application",
             "CPU time is the only non-deterministic measure; its bound (5 s for one attack that normally costs well under 1 ms) is three orders of magnitude above normal",
@@ -111,7 +111,7 @@ const PEER_CH: u16 = 3;
 const RCV_PH: u32 = 9; // peer's handle of the link on which the endpoint receives
 const SND_PH: u32 = 4; // peer's handle of the link on which the endpoint sends
 const RCV_CREDIT: u32 = 10;
-pub const N_CAT: u8 = 31;
+pub const N_CAT: u8 = 32;
 
 fn edge() -> BoxedStrategy<u32> {
     prop_oneof![
@@ -596,6 +596,15 @@ fn catalogue(v: u8, a: u32, b: u32, cx: &Ctx) -> (&'static str, Vec<Vec<u8>>, bo
         }
         27 => ("end-then-more-on-channel", vec![f(PEER_CH, Peer::end_body(None), &[]), f(PEER_CH, Peer::transfer_body(RCV_PH, Some(cx.next_did), Some(b"e"), Some(0), Some(true), false, None, false), &msg), f(PEER_CH, Peer::flow_body(Some(0), 100, 0, 100, Some(SND_PH), Some(0), Some(a), false, false), &[])], false),
         28 => ("detach-then-transfer-on-handle", vec![f(PEER_CH, Peer::detach_body(RCV_PH, a % 2 == 0, None), &[]), f(PEER_CH, Peer::transfer_body(RCV_PH, Some(cx.next_did), Some(b"d"), Some(0), Some(true), false, None, false), &msg)], false),
+        31 => {
+            // the peer advertises an outgoing-window of 0 or 1 and then sends more transfers than that
+            let w = a % 2;
+            let mut fr = vec![f(PEER_CH, Peer::flow_body(Some(0), 100_000, cx.next_did, w, None, None, None, false, false), &[])];
+            for i in 0..(2 + b % 3) {
+                fr.push(f(PEER_CH, Peer::transfer_body(RCV_PH, Some(cx.next_did.wrapping_add(i)), Some(&[i as u8]), Some(0), Some(true), false, None, false), &msg));
+            }
+            ("transfers-beyond-own-outgoing-window", fr, false)
+        }
         30 => {
             // an open with a max-frame-size below the protocol minimum / odd values
             let container = match b % 3 { 0 => "".to_string(), 1 => "verif-peer".to_string(), _ => "x".repeat(300) };
